@@ -5,10 +5,12 @@ from .. import common, tlc
 _ALL = [('RSocketMC', 'RSocketMC_%s.cfg' % k, 900) for k in
         ('rr', 'rr_s', 'stream', 'stream_s', 'stream_lib', 'channel_nopub', 'channel_lib', 'channel')]
 _SMALL = [c for c in _ALL if c[1] != 'RSocketMC_channel.cfg']
+# two interactions side by side on one connection (shared sender and link): cross-stream independence at design level
+_TWO = [('RSocketMC2', 'RSocketMC2_%s.cfg' % k, 900) for k in ('rr_rr', 'rr_stream', 'stream_rr_s', 'stream_stream', 'streamlib_rr')]
 CONFIGS = {
-    'C01': _ALL, 'C07': _ALL, 'C08': _ALL, 'C09': _ALL, 'C10': _ALL,
+    'C01': _ALL + _TWO, 'C07': _ALL, 'C08': _ALL, 'C09': _ALL + _TWO, 'C10': _ALL + _TWO,
     'C06': [c for c in _ALL if 'lib' in c[1] or c[1] == 'RSocketMC_stream.cfg'],
-    'C05': _SMALL, 'C11': _SMALL, 'C12': _SMALL,
+    'C05': _SMALL + _TWO, 'C11': _SMALL, 'C12': _SMALL,
 }
 
 
@@ -39,7 +41,7 @@ def run_for(v, prop):
             v.add_failure('%s.design_%s' % (prop, r.violated), {'cfg': cfg}, 'TLC: %s violated in the design model %s' % (r.violated, cfg))
         v.add('states', r.distinct)
         v.add('transitions', r.generated)
-        if thorough:
+        if thorough and module == 'RSocketMC':
             cov = r.coverage()
             kind = 'rr' if '_rr' in cfg else ('stream' if '_stream' in cfg else 'channel')
             zero = sorted(a for a, (d, t) in cov.items() if t == 0 and a not in _EXPECTED_UNUSED[kind]
